@@ -210,7 +210,18 @@ pub fn do_send(w: &mut World, ctx: &mut Ctx, spec: &OpSpec) -> Result<Op, Fail> 
         len = max_mem.saturating_sub(ctx.src.pick(&[0usize, 1, 1199, 1200, 1201]));
         ctx.label("budget_sized_msg");
     }
-    let n = 1 + if ctx.src.chance(64) { ctx.src.below(spec.burst.max(1)) } else { 0 };
+    let mut n = 1 + if ctx.src.chance(64) { ctx.src.below(spec.burst.max(1)) } else { 0 };
+    // now and then hundreds of tiny messages in one go (more than 255 fit into one packet)
+    if ctx.src.chance(2) {
+        len = ctx.src.below(2);
+        n = ctx.src.pick(&[300usize, 256, 257, 420]);
+        ctx.label("tiny_burst");
+    }
+    // now and then the sender of an unordered channel is moved far ahead in its id space (long history: ids of outstanding
+    // messages more than 2^16 / 2^32 apart)
+    if ctx.src.chance(6) && w.id_jump(d, ch, ctx.src.pick(&[70_000u64, 1 << 32, 20_000, 65_536])) {
+        ctx.label("id_jump");
+    }
     let mut accepted = 0;
     for _ in 0..n {
         if w.send(d, ch, len, spec.polite, 0)? {
